@@ -156,6 +156,11 @@ where
         let _token = VERIF_SESSION_TOKEN
             .lock()
             .unwrap_or_else(|e| e.into_inner());
+        // a preemptive OS may also suspend a thread *inside* the critical section; the
+        // simulator switches this point on for some runs (others then find the lock taken)
+        if VERIF_PREEMPT_INSIDE_SESSION_LOCK.load(Ordering::Relaxed) {
+            shuttle::thread::yield_now();
+        }
         let mut guard = SESSION_GLOBALS
             .lock()
             .unwrap_or_else(|_| panic!("Failed to acquire lock on SESSION_GLOBALS"));
@@ -164,6 +169,9 @@ where
     shuttle::thread::yield_now();
     r
 }
+#[cfg(mimium_rs_verif_shuttle)]
+pub static VERIF_PREEMPT_INSIDE_SESSION_LOCK: std::sync::atomic::AtomicBool =
+    std::sync::atomic::AtomicBool::new(false);
 
 #[cfg(not(mimium_rs_verif_shuttle))]
 pub fn with_session_globals<R, F>(f: F) -> R
